@@ -20,47 +20,78 @@ def sentX (x : Nat) (g : Ghost) : List Bytes := pX x (wireMsgs g.evs)
 
 theorem absC_swap (x jA jB : Nat) (p : PS) : absC x jA jB p.swap = (absC x jB jA p).swap := rfl
 
+/-- The payloads the successful writes of an endpoint queued as `Push x`, in order. -/
+def wroteX (x : Nat) (g : Ghost) : List Bytes := XL.wrotes (xlOfWrote x g.wrote)
+
+/-- How many `Finish x` were processed for object `j` among end events. -/
+def finP (x j : Nat) (D : List EndEv) : Nat := XL.fins (finsOf x j D)
+
+theorem wrotes_finsOf (x j : Nat) (D : List EndEv) : XL.wrotes (finsOf x j D) = [] := by
+  unfold finsOf
+  induction D.filter (fun p => p == (j, EndCause.peerFinish x)) with
+  | nil => rfl
+  | cons a r ih => simpa [XL.wrotes] using ih
+
+theorem fins_xlOfWrote (x : Nat) (W : List (Nat × Nat × Bytes)) : XL.fins (xlOfWrote x W) = 0 := by
+  unfold xlOfWrote
+  induction W.filter (fun t => t.2.1 == x) with
+  | nil => rfl
+  | cons a r ih => simpa [XL.fins] using ih
+
+theorem wroteX_stepG (x : Nat) (e : EP) (g : Ghost) (op : Mux.Op) :
+    wroteX x (stepG e g op).2 = wroteX x g ++ XL.wrotes (xlOfWrote x (wroteBy e op (applyOp e op).2.1)) := by
+  simp [wroteX, stepG, xlOfWrote_append, XL.wrotes_append]
+
+theorem finP_append (x j : Nat) (a b : List EndEv) : finP x j (a ++ b) = finP x j a + finP x j b := by
+  simp [finP, finsOf_append, XL.fins_append]
+
 /-! ### One stimulus of the left / right endpoint, on an arbitrary pair of views whose left / right view is that endpoint's -/
 
-theorem good_callL (hex : ¬(ownA ∧ ownB)) {c : PC} {S R : List Bytes} {e : EP} (hg : Good x j ownA ownB c S R)
+theorem good_callL (hex : ¬(ownA ∧ ownB)) {c : PC} {S R W : List Bytes} {P : Nat} {e : EP}
+    (hg : Good x j ownA ownB c S R W P)
     (ha : c.a = view x jA e e.inbox) (op : Mux.Op) (hc : isCall op = true) (hsf : SF e) (hj : J x jA (applyOp e op).1)
     (hne : (applyOp e op).1.rng.isEmpty = false) :
     Good x j ownA ownB { c with a := view x jA (applyOp e op).1 (applyOp e op).1.inbox,
                                 ab := if c.abOpen then c.ab ++ wireMsgs (applyOp e op).2.2 else c.ab }
-      (S ++ pX x (wireMsgs (applyOp e op).2.2)) R :=
-  hg.starL hex (ha ▸ star_call e op hc hsf hj) hne
+      (S ++ pX x (wireMsgs (applyOp e op).2.2)) R
+      (W ++ XL.wrotes (xlOfWrote x (wroteBy e op (applyOp e op).2.1))) P :=
+  (hg.starL hex (ha ▸ star_call e op hc hsf hj) hne).cast rfl rfl rfl
+    (by simp [XL.wrotes_append, wrotes_finsOf]) rfl
 
-theorem good_callR (hex : ¬(ownA ∧ ownB)) {c : PC} {S R : List Bytes} {e : EP} (hg : Good x j ownA ownB c S R)
+theorem good_callR (hex : ¬(ownA ∧ ownB)) {c : PC} {S R W : List Bytes} {P : Nat} {e : EP}
+    (hg : Good x j ownA ownB c S R W P)
     (hb : c.b = view x j e e.inbox) (op : Mux.Op) (hc : isCall op = true) (hsf : SF e) (hj : J x j (applyOp e op).1)
     (hne : (applyOp e op).1.rng.isEmpty = false) :
     Good x j ownA ownB { c with b := view x j (applyOp e op).1 (applyOp e op).1.inbox,
                                 ba := if c.baOpen then c.ba ++ wireMsgs (applyOp e op).2.2 else c.ba }
-      S (R ++ Log.dataOf (settleLog (opStep e op).1) j) :=
-  hg.starR hex (hb ▸ star_call e op hc hsf hj) hne
+      S (R ++ Log.dataOf (settleLog (opStep e op).1) j) W (P + finP x j (applyOpEnds e op)) :=
+  (hg.starR hex (hb ▸ star_call e op hc hsf hj) hne).cast rfl rfl rfl rfl
+    (by simp [XL.fins_append, fins_xlOfWrote, finP])
 
 /-- After the inbox of the left endpoint has been extended by a delivery (`c1`): the task runs. -/
-theorem good_settleL (hex : ¬(ownA ∧ ownB)) {c1 : PC} {S R : List Bytes} {e : EP} {w : WsIn}
-    (hg : Good x j ownA ownB c1 S R)
+theorem good_settleL (hex : ¬(ownA ∧ ownB)) {c1 : PC} {S R W : List Bytes} {P : Nat} {e : EP} {w : WsIn}
+    (hg : Good x j ownA ownB c1 S R W P)
     (ha : c1.a = view x jA (opStep e (.deliver w)).1 (opStep e (.deliver w)).1.inbox) (hsf : SF e)
     (hj : J x jA (applyOp e (.deliver w)).1) (hne : (applyOp e (.deliver w)).1.rng.isEmpty = false) :
     Good x j ownA ownB { c1 with a := view x jA (applyOp e (.deliver w)).1 (applyOp e (.deliver w)).1.inbox,
                                  ab := if c1.abOpen then c1.ab ++ wireMsgs (applyOp e (.deliver w)).2.2 else c1.ab }
-      (S ++ pX x (wireMsgs (applyOp e (.deliver w)).2.2)) R :=
-  hg.starL hex (ha ▸ star_deliver e w hsf hj) hne
+      (S ++ pX x (wireMsgs (applyOp e (.deliver w)).2.2)) R W P :=
+  (hg.starL hex (ha ▸ star_deliver e w hsf hj) hne).cast rfl rfl rfl (by simp [wrotes_finsOf]) rfl
 
-theorem good_settleR (hex : ¬(ownA ∧ ownB)) {c1 : PC} {S R : List Bytes} {e : EP} {w : WsIn}
-    (hg : Good x j ownA ownB c1 S R)
+theorem good_settleR (hex : ¬(ownA ∧ ownB)) {c1 : PC} {S R W : List Bytes} {P : Nat} {e : EP} {w : WsIn}
+    (hg : Good x j ownA ownB c1 S R W P)
     (hb : c1.b = view x j (opStep e (.deliver w)).1 (opStep e (.deliver w)).1.inbox) (hsf : SF e)
     (hj : J x j (applyOp e (.deliver w)).1) (hne : (applyOp e (.deliver w)).1.rng.isEmpty = false) :
     Good x j ownA ownB { c1 with b := view x j (applyOp e (.deliver w)).1 (applyOp e (.deliver w)).1.inbox,
                                  ba := if c1.baOpen then c1.ba ++ wireMsgs (applyOp e (.deliver w)).2.2 else c1.ba }
-      S (R ++ Log.dataOf (settleLog (opStep e (.deliver w)).1) j) :=
-  hg.starR hex (hb ▸ star_deliver e w hsf hj) hne
+      S (R ++ Log.dataOf (settleLog (opStep e (.deliver w)).1) j) W (P + finP x j (applyOpEnds e (.deliver w))) :=
+  (hg.starR hex (hb ▸ star_deliver e w hsf hj) hne).cast rfl rfl rfl rfl rfl
 
 /-! ### The invariant of the pair model -/
 
-structure PInv (x jA j : Nat) (ownA ownB : Prop) (p : PS) : Prop where
-  good : Good x j ownA ownB (absC x jA j p) (sentX x p.ga) (Log.dataOf p.gb.accepted j)
+/-- `Db`: the end events recorded so far for the RIGHT endpoint (`Mux.applyOpEnds` of every stimulus applied to it). -/
+structure PInv (x jA j : Nat) (ownA ownB : Prop) (p : PS) (Db : List EndEv) : Prop where
+  good : Good x j ownA ownB (absC x jA j p) (sentX x p.ga) (Log.dataOf p.gb.accepted j) (wroteX x p.ga) (finP x j Db)
   sfA : SF p.a
   sfB : SF p.b
   neA : p.a.rng.isEmpty = false
@@ -80,33 +111,43 @@ theorem SF.stepG {e : EP} (h : SF e) (g : Ghost) (op : Mux.Op) : SF (stepG e g o
 theorem isEnd_of {w : WsIn} (hw : w = .eof ∨ w = .err) : isEnd w = true := by
   rcases hw with rfl | rfl <;> rfl
 
+/-- The stimulus of the endpoint model that a stimulus of the pair applies to the LEFT endpoint. -/
+def stimOp (p : PS) : Stim → Option Mux.Op
+  | .call op => if isCall op then some op else none
+  | .deliver => match p.ba with | [] => none | m :: _ => some (.deliver (.msg m))
+  | .cut eof => some (.deliver (if eof then .eof else .err))
+
 /-- The left endpoint's source ends or fails. -/
-theorem PInv.cutA (hex : ¬(ownA ∧ ownB)) {p : PS} (h : PInv x jA j ownA ownB p) (w : WsIn) (hw : w = .eof ∨ w = .err)
+theorem PInv.cutA (hex : ¬(ownA ∧ ownB)) {p : PS} {Db : List EndEv} (h : PInv x jA j ownA ownB p Db) (w : WsIn)
+    (hw : w = .eof ∨ w = .err)
     (hne : (stepG p.a p.ga (.deliver w)).1.rng.isEmpty = false) (hj : J x jA (stepG p.a p.ga (.deliver w)).1) :
-    PInv x jA j ownA ownB ({ actL p (.deliver w) with ba := [], baOpen := false } : PS) := by
+    PInv x jA j ownA ownB ({ actL p (.deliver w) with ba := [], baOpen := false } : PS) Db := by
   have hn0 : (absC x jA j p).a.rngNil = false := h.neA
   refine ⟨?_, h.sfA.stepG p.ga (.deliver w), h.sfB, hne, h.neB⟩
   have g1 := h.good.stepL hex (jA := jA) (CStepL.cut (absC x jA j p) w (isEnd_of hw)) hn0
   have g2 := good_settleL hex g1 (view_deliver_end p.a w hw).symm h.sfA hj hne
   refine g2.cast ?_ (by simp [actL, sentX, stepG, wireMsgs_append, pX_append, pX]) rfl
+    (by simp [actL, wroteX_stepG, wroteBy, xlOfWrote, XL.wrotes]) rfl
   simp only [absC, actL, send, stepG]
   rfl
 
 /-- The right endpoint's source ends or fails. -/
-theorem PInv.cutB (hex : ¬(ownA ∧ ownB)) {p : PS} (h : PInv x jA j ownA ownB p) (w : WsIn) (hw : w = .eof ∨ w = .err)
+theorem PInv.cutB (hex : ¬(ownA ∧ ownB)) {p : PS} {Db : List EndEv} (h : PInv x jA j ownA ownB p Db) (w : WsIn)
+    (hw : w = .eof ∨ w = .err)
     (hne : (stepG p.b p.gb (.deliver w)).1.rng.isEmpty = false) (hj : J x j (stepG p.b p.gb (.deliver w)).1) :
-    PInv x jA j ownA ownB ({ actL p.swap (.deliver w) with ba := [], baOpen := false } : PS).swap := by
+    PInv x jA j ownA ownB ({ actL p.swap (.deliver w) with ba := [], baOpen := false } : PS).swap
+      (Db ++ applyOpEnds p.b (.deliver w)) := by
   have hn0 : (absC x jA j p).swap.a.rngNil = false := h.neB
   refine ⟨?_, h.sfA, h.sfB.stepG p.gb (.deliver w), h.neA, hne⟩
   have g1 := h.good.stepR hex (CStepL.cut (absC x jA j p).swap w (isEnd_of hw)) hn0
   have g2 := good_settleR hex g1 (view_deliver_end p.b w hw).symm h.sfB hj hne
-  refine g2.cast ?_ rfl (by simp [PS.swap, actL, stepG, Log.dataOf_append])
+  refine g2.cast ?_ rfl (by simp [PS.swap, actL, stepG, Log.dataOf_append]) rfl (by simp [finP_append, XL.fins])
   simp only [absC, PS.swap, PC.swap, actL, send, stepG]
   rfl
 
 /-- A stimulus of the LEFT endpoint. -/
-theorem PInv.stimA (hex : ¬(ownA ∧ ownB)) {p q : PS} {st : Stim} (h : PInv x jA j ownA ownB p)
-    (hs : stimL p st = some q) (hne : q.a.rng.isEmpty = false) (hj : J x jA q.a) : PInv x jA j ownA ownB q := by
+theorem PInv.stimA (hex : ¬(ownA ∧ ownB)) {p q : PS} {st : Stim} {Db : List EndEv} (h : PInv x jA j ownA ownB p Db)
+    (hs : stimL p st = some q) (hne : q.a.rng.isEmpty = false) (hj : J x jA q.a) : PInv x jA j ownA ownB q Db := by
   cases st with
   | call op =>
     simp only [stimL] at hs
@@ -115,7 +156,7 @@ theorem PInv.stimA (hex : ¬(ownA ∧ ownB)) {p q : PS} {st : Stim} (h : PInv x 
       have hq := Option.some.inj hs; subst hq
       refine ⟨?_, h.sfA.stepG p.ga op, h.sfB, hne, h.neB⟩
       have g := good_callL hex h.good (rfl : (absC x jA j p).a = view x jA p.a p.a.inbox) op hc h.sfA hj hne
-      exact g.cast rfl (sentX_stepG x p.a p.ga op) rfl
+      exact g.cast rfl (sentX_stepG x p.a p.ga op) rfl (wroteX_stepG x p.a p.ga op) rfl
     · cases hs
   | deliver =>
     simp only [stimL] at hs
@@ -131,29 +172,33 @@ theorem PInv.stimA (hex : ¬(ownA ∧ ownB)) {p q : PS} {st : Stim} (h : PInv x 
         have g1 := h.good.stepL hex (jA := jA) (CStepL.dlvClose (absC x jA j p) rest hba) hn0
         have g2 := good_settleL hex g1 (view_deliver_close p.a).symm h.sfA hj hne
         exact g2.cast rfl (by simp [actL, sentX, stepG, wireMsgs_append, pX_append, pX]) rfl
+          (by simp [actL, wroteX_stepG, wroteBy, xlOfWrote, XL.wrotes]) rfl
       · rename_i hm
         have hq := Option.some.inj hs; subst hq
         refine ⟨?_, h.sfA.stepG p.ga (.deliver (.msg m)), h.sfB, hne, h.neB⟩
         have g1 := h.good.stepL hex (jA := jA) (CStepL.dlv (absC x jA j p) m rest hba hm) hn0
         have g2 := good_settleL hex g1 (view_deliver_msg p.a m hm).symm h.sfA hj hne
         exact g2.cast rfl (by simp [actL, sentX, stepG, wireMsgs_append, pX_append, pX]) rfl
+          (by simp [actL, wroteX_stepG, wroteBy, xlOfWrote, XL.wrotes]) rfl
   | cut eof =>
     have hs' : some ({ actL p (.deliver (if eof = true then WsIn.eof else WsIn.err)) with ba := [], baOpen := false } : PS) = some q := hs
     have hq := Option.some.inj hs'; subst hq
     exact h.cutA hex _ (by cases eof <;> simp) hne hj
 
-/-- A stimulus of the RIGHT endpoint (a stimulus of the left endpoint of the swapped pair). -/
-theorem PInv.stimB (hex : ¬(ownA ∧ ownB)) {p q : PS} {st : Stim} (h : PInv x jA j ownA ownB p)
-    (hs : stimL p.swap st = some q) (hne : q.a.rng.isEmpty = false) (hj : J x j q.a) : PInv x jA j ownA ownB q.swap := by
+/-- A stimulus of the RIGHT endpoint (a stimulus of the left endpoint of the swapped pair): the end events it
+    records are appended. -/
+theorem PInv.stimB (hex : ¬(ownA ∧ ownB)) {p q : PS} {st : Stim} {Db : List EndEv} (h : PInv x jA j ownA ownB p Db)
+    (hs : stimL p.swap st = some q) (hne : q.a.rng.isEmpty = false) (hj : J x j q.a) :
+    ∃ op, stimOp p.swap st = some op ∧ PInv x jA j ownA ownB q.swap (Db ++ applyOpEnds p.b op) := by
   cases st with
   | call op =>
     simp only [stimL] at hs
     split at hs
     · rename_i hc
       have hq := Option.some.inj hs; subst hq
-      refine ⟨?_, h.sfA, h.sfB.stepG p.gb op, h.neA, hne⟩
+      refine ⟨op, by simp [stimOp, hc], ?_, h.sfA, h.sfB.stepG p.gb op, h.neA, hne⟩
       have g := good_callR hex h.good (rfl : (absC x jA j p).b = view x j p.b p.b.inbox) op hc h.sfB hj hne
-      exact g.cast rfl rfl (acc_stepG j p.b p.gb op)
+      exact g.cast rfl rfl (acc_stepG j p.b p.gb op) rfl (finP_append x j _ _)
     · cases hs
   | deliver =>
     simp only [stimL] at hs
@@ -161,23 +206,24 @@ theorem PInv.stimB (hex : ¬(ownA ∧ ownB)) {p q : PS} {st : Stim} (h : PInv x 
     · cases hs
     · rename_i m rest hba
       have hn0 : (absC x jA j p).swap.a.rngNil = false := h.neB
+      have hop : stimOp p.swap .deliver = some (.deliver (.msg m)) := by simp [stimOp, hba]
       split at hs
       · rename_i hm
         subst hm
         have hq := Option.some.inj hs; subst hq
-        refine ⟨?_, h.sfA, h.sfB.stepG p.gb (.deliver (.msg .close)), h.neA, hne⟩
+        refine ⟨_, hop, ?_, h.sfA, h.sfB.stepG p.gb (.deliver (.msg .close)), h.neA, hne⟩
         have g1 := h.good.stepR hex (CStepL.dlvClose (absC x jA j p).swap rest hba) hn0
         have g2 := good_settleR hex g1 (view_deliver_close p.b).symm h.sfB hj hne
-        exact g2.cast rfl rfl (by simp [PS.swap, actL, stepG, Log.dataOf_append])
+        exact g2.cast rfl rfl (by simp [PS.swap, actL, stepG, Log.dataOf_append]) rfl (by simp [finP_append, XL.fins])
       · rename_i hm
         have hq := Option.some.inj hs; subst hq
-        refine ⟨?_, h.sfA, h.sfB.stepG p.gb (.deliver (.msg m)), h.neA, hne⟩
+        refine ⟨_, hop, ?_, h.sfA, h.sfB.stepG p.gb (.deliver (.msg m)), h.neA, hne⟩
         have g1 := h.good.stepR hex (CStepL.dlv (absC x jA j p).swap m rest hba hm) hn0
         have g2 := good_settleR hex g1 (view_deliver_msg p.b m hm).symm h.sfB hj hne
-        exact g2.cast rfl rfl (by simp [PS.swap, actL, stepG, Log.dataOf_append])
+        exact g2.cast rfl rfl (by simp [PS.swap, actL, stepG, Log.dataOf_append]) rfl (by simp [finP_append, XL.fins])
   | cut eof =>
     have hs' : some ({ actL p.swap (.deliver (if eof = true then WsIn.eof else WsIn.err)) with ba := [], baOpen := false } : PS) = some q := hs
     have hq := Option.some.inj hs'; subst hq
-    exact h.cutB hex _ (by cases eof <;> simp) hne hj
+    exact ⟨_, rfl, h.cutB hex _ (by cases eof <;> simp) hne hj⟩
 
 end Penguin.PairAll
